@@ -351,15 +351,42 @@ PROBE_CMD(grid_load) {
                .i(std::get<3>(e)).i(std::get<4>(e)).i(std::get<5>(e)).end_arr();
         out.end_arr();
         if (jbool(req, "geometry", true)) {
+            // one surface at a time, read straight from the file by a reader that has not loaded ZCORN yet (unformatted
+            // files only), against the corners of the fully loaded reader: two public routes to the same numbers
+            std::vector<std::vector<std::array<float, 3>>> surf;
+            std::string surf_error;
+            if (!eg.formattedInput()) {
+                try {
+                    Opm::EclIO::EGrid eg2(path);
+                    for (int k = 0; k < d[2]; ++k)
+                        for (int b = 0; b < 2; ++b) surf.push_back(eg2.getXYZ_layer(k, b == 1));
+                } catch (const std::exception& e) { surf_error = e.what(); }
+            }
             out.key("corners").arr();
+            long surf_checked = 0;
+            std::string surf_mismatch;
             for (int c = 0; c < eg.totalNumberOfCells(); ++c) {
                 std::array<double, 8> X{}, Y{}, Z{};
                 eg.getCellCorners(c, X, Y, Z);
                 out.arr();
                 for (int q = 0; q < 8; ++q) out.arr().d(X[q]).d(Y[q]).d(Z[q]).end_arr();
                 out.end_arr();
+                if (!surf.empty() && surf_mismatch.empty()) {
+                    const int k = c / (d[0] * d[1]), ij = c % (d[0] * d[1]);
+                    for (int q = 0; q < 8; ++q) {
+                        const auto& sf = surf[2 * k + (q >= 4 ? 1 : 0)];
+                        const std::size_t idx = (std::size_t)ij * 4 + (q % 4);
+                        ++surf_checked;
+                        if (idx >= sf.size() || sf[idx][0] != (float)X[q] || sf[idx][1] != (float)Y[q] || sf[idx][2] != (float)Z[q]) {
+                            surf_mismatch = "cell " + std::to_string(c) + " corner " + std::to_string(q) + ": getXYZ_layer z="
+                                + (idx < sf.size() ? std::to_string(sf[idx][2]) : std::string("<missing>")) + " getCellCorners z=" + std::to_string(Z[q]);
+                            break;
+                        }
+                    }
+                }
             }
             out.end_arr();
+            out.kv_i("xyz_layer_checked", surf_checked).kv_s("xyz_layer_mismatch", surf_mismatch).kv_s("xyz_layer_error", surf_error);
         }
         out.end_obj();
     }
